@@ -16,12 +16,39 @@ from .. import tlc, local, pool, corpus, inputs
 PID = 'C08'
 
 
+def generated_sources(tier, rng):
+    """compilable programs out of the other specifications' input spaces: every string of Quote.tla's alphabet (and the attack strings) in every
+    literal context of C12 - plain, f-string text, nested literal, nested call, format spec, nested f-string, bytes - and the expression shapes
+    of FoldGate.tla.  Other checks look at what minify() does with them; this one only at whether it returns something that compiles."""
+    from . import C12 as c12
+    out = []
+    todo = [t for t in c12.strings(3 if tier == 'quick' else 4)]
+    short = [t for t in todo if len(t) <= 2]
+    rest = [t for t in todo if len(t) > 2]
+    rng.shuffle(rest)
+    att = c12.attack_strings()
+    rng.shuffle(att)
+    for t in short + rest[:600 if tier == 'quick' else 20000] + att[:60 if tier == 'quick' else None]:
+        s = ''.join(c12.CH[c] for c in t)
+        for ctx, src in c12.contexts(s):
+            out.append(('lit:%s:%s' % ('.'.join(t), ctx), src.encode('utf-8', 'surrogatepass')))
+    cases, _ = tlc.cached_export('FoldGate', 'Export_FoldGate.cfg', timeout=3600)
+    idx = list(range(len(cases)))
+    rng.shuffle(idx)
+    for k in sorted(idx[:1500 if tier == 'quick' else 30000]):
+        # names instead of the canary import: the module must compile, it is never run
+        text = c12.expr_text(cases[k]['e']).replace('__import__("zq_canary_mod")', 'zq_canary_call()')
+        out.append(('gate:%d' % k, ('x = %s\n' % text).encode()))
+    return out
+
+
 def local_jobs(tier, rng):
     jobs = []
     files, skipped = corpus.stdlib('3.12', 120 if tier == 'quick' else 300)
     srcs = [('file:' + p, b) for p, b in files]
     srcs += [('repo:' + p, b) for p, b in corpus.repo_sources()]
     srcs += inputs.shapes('3.12')
+    gen = generated_sources(tier, rng)
     optsets = dict(inputs.OPTSETS)
     for k in range(2 if tier == 'quick' else 8):
         optsets['rnd%d' % k] = inputs.random_optset(rng)
@@ -30,6 +57,9 @@ def local_jobs(tier, rng):
             if on.startswith('rnd') and name.startswith('file:') and tier == 'quick':
                 continue
             jobs.append({'id': '%s|%s|3.12' % (name, on), 'src': b, 'opts': o, 'name': name, 'optset': on})
+    for name, b in gen:
+        for on in ('default', 'all'):
+            jobs.append({'id': '%s|%s|3.12' % (name, on), 'src': b, 'opts': {} if on == 'default' else local.ALL_ON, 'name': name, 'optset': on})
     # corrupted sources: the SyntaxError clause
     small = [(n, b) for n, b in srcs if len(b) < 3000]
     rng.shuffle(small)
@@ -53,6 +83,11 @@ def remote_requests(version, tier, rng):
     if tier != 'quick':
         optsets['off'] = local.ALL_OFF
         optsets['rnd'] = inputs.random_optset(rng)
+    if version != '2.7':
+        gen = generated_sources(tier, random.Random(rng.random()))
+        random.Random(0).shuffle(gen)
+        for name, b in gen[:1500 if tier == 'quick' else 20000]:
+            reqs.append({'op': 'minify', 'id': '%s|default|%s' % (name, version), 'src_b64': inputs.b64(b), 'as_bytes': True, 'opts': {}})
     for name, b in srcs:
         for on, o in optsets.items():
             reqs.append({'op': 'minify', 'id': '%s|%s|%s' % (name, on, version), 'src_b64': inputs.b64(b),
@@ -146,7 +181,8 @@ def run(args, rep):
                       what='%s options=%s python=%s outcome=%s %s' % (name, optset, version, o.get('outcome'), (o.get('msg') or o.get('compile_out_err') or '')[:100]),
                       replay={'kind': 'minify', 'version': version, 'src_b64': src_b64, 'opts': j.get('opts', {}), 'clause': clause})
     rep.rule = ('inputs: pinned stdlib modules, the repository sources, the hand-written shape bank, each interpreter\'s grammar '
-                'test files and token-level corruptions of those; option sets: all off, defaults, everything on, seeded random; '
+                'test files and token-level corruptions of those; the literal contexts of C12 (every string over Quote.tla\'s alphabet up to length 3 [4] in 9 '
+                'contexts) and expression shapes of FoldGate.tla; option sets: all off, defaults, everything on, seeded random; '
                 'non-trivial = distinct sources whose minified text differs from the input')
     rep.extra.update({'records_per_version': per_version, 'unjudgeable_skipped': unjudgeable,
                       'corpus_files_skipped_hash_mismatch': skipped,
